@@ -8,9 +8,11 @@
   `Rngs.Lib.BlockRefine` (`BlockRng`, `BlockRng64`).
 -/
 import Rngs.Lib.StreamRefine
+import Rngs.Lib.BlockRefineInst
+import Rngs.Lib.StreamRefineJitter
 import Rngs.Model.XorShift
 namespace Rngs.C05
-open Rngs Rngs.Spec.Stream Rngs.StreamRefine
+open Rngs Rngs.Spec.Stream Rngs.StreamRefine Rngs.BlockRefine Rngs.JitterRefine
 
 /-! ## A. non-buffered generators
 
@@ -142,5 +144,188 @@ example :
     (run (opDirect Xoshiro256PlusPlus.gen.direct) ⟨1, 2, 3, 4⟩ [.u32, .fill 3, .u64]).2
       = iter (next64 Xoshiro256PlusPlus.nextU64) 3 ⟨1, 2, 3, 4⟩ :=
   ((Xoshiro256PlusPlus_refines ⟨1, 2, 3, 4⟩ [.u32, .fill 3, .u64]).1.1 ▸ rfl)
+
+/-! ## B. buffered generators (`BlockRng`, `BlockRng64`)
+
+  For a core `c` and a start state with results array `r₀` and core `c₀`:
+  `blk c r₀ c₀ b` is the results array after `b` calls of `generate` (each call receives the
+  previous array, as in Rust; `blk … 0 = r₀`), `coreAfter c r₀ c₀ b` the core after `b` calls,
+  and `absStream c r₀ c₀ j = (blk … (j / N))[j % N]` the blocks laid end to end.  A state
+  with buffer index `i` has `i` words of block 0 behind it, so its native stream is
+  `k ↦ absStream … (i + k)`.  `opBlock32 c` / `opBlock64 c` interpret an `Op` by
+  `BlockRng::{next_u32, next_u64, fill_bytes}`. -/
+
+/-- the native stream of a `BlockRng`/`BlockRng64` state: the unread rest of its buffer,
+    then the blocks `generate` produces from its core -/
+def blockStream {σ : Type} {w : Nat} (c : BlockCore σ w) (res : Array (BitVec w)) (core : σ)
+    (index : Nat) (k : Nat) : BitVec w :=
+  absStream c res core (index + k)
+
+/-- C05 for `BlockRng` from state `st` for the history `ops`: outputs of `stepBlock32` over
+    the state's native stream; the final state is the state after `b` refills with
+    `b·N + index = (start index) + pos` — exactly `pos` words were consumed. -/
+def RefinesBlock32 {σ : Type} (c : BlockCore σ 32) (st : BlockRng σ) (ops : List Op) : Prop :=
+  let spec := run (stepBlock32 (blockStream c st.results st.core st.index)) ⟨0, false⟩ ops
+  let fin := (run (opBlock32 c) st ops).2
+  (run (opBlock32 c) st ops).1 = spec.1 ∧ spec.2.pending = false
+  ∧ ∃ b, fin.results = blk c st.results st.core b ∧ fin.core = coreAfter c st.results st.core b
+      ∧ fin.index ≤ c.len ∧ st.index + spec.2.pos = b * c.len + fin.index
+
+/-- C05 for `BlockRng64`: as above with `stepBlock64`; `half_used` is the cursor's `pending`. -/
+def RefinesBlock64 {σ : Type} (c : BlockCore σ 64) (st : BlockRng64 σ) (ops : List Op) : Prop :=
+  let spec := run (stepBlock64 (blockStream c st.results st.core st.index)) ⟨0, false⟩ ops
+  let fin := (run (opBlock64 c) st ops).2
+  (run (opBlock64 c) st ops).1 = spec.1 ∧ fin.halfUsed = spec.2.pending
+  ∧ ∃ b, fin.results = blk c st.results st.core b ∧ fin.core = coreAfter c st.results st.core b
+      ∧ fin.index ≤ c.len ∧ st.index + spec.2.pos = b * c.len + fin.index
+
+/-- generic: every `BlockRng` over a size-preserving core with at least two words per block,
+    from every state whose buffer has the right length and whose index is in range -/
+theorem refinesBlock32 {σ : Type} (c : BlockCore σ 32) (hs : SizeOK c) (hN : 2 ≤ c.len)
+    (st : BlockRng σ) (hsz : st.results.size = c.len) (hidx : st.index ≤ c.len) (ops : List Op) :
+    RefinesBlock32 c st ops := by
+  have h := block32_refines (c := c) (r₀ := st.results) (c₀ := st.core) hs hsz hN st.index ops st
+    ⟨0, false⟩ ⟨At.start hidx, rfl⟩
+  obtain ⟨h1, h2, h3⟩ := h
+  exact ⟨h1, h3, h2⟩
+
+theorem refinesBlock64 {σ : Type} (c : BlockCore σ 64) (hs : SizeOK c) (hN : 0 < c.len)
+    (st : BlockRng64 σ) (hsz : st.results.size = c.len) (hidx : st.index ≤ c.len)
+    (hhalf : st.halfUsed = false) (ops : List Op) :
+    RefinesBlock64 c st ops := by
+  have h := block64_refines (c := c) (r₀ := st.results) (c₀ := st.core) hs hsz hN st.index ops st
+    ⟨0, false⟩ ⟨At.start hidx, hhalf, fun hf => by cases hf⟩
+  obtain ⟨h1, h2, h3, -⟩ := h
+  exact ⟨h1, h3, h2⟩
+
+/-- the stream of a freshly constructed generator (index = N: nothing buffered): word `k`
+    is element `k % N` of the `(k / N + 1)`-st generated block -/
+theorem blockStream_new {σ : Type} {w : Nat} (c : BlockCore σ w) (hN : 0 < c.len)
+    (res : Array (BitVec w)) (core : σ) (k : Nat) :
+    blockStream c res core c.len k = rd (blk c res core (k / c.len + 1)) (k % c.len) := by
+  unfold blockStream absStream
+  rw [Nat.add_div_left _ hN, Nat.add_mod_left]
+
+/-! ### Hc128Rng -/
+
+theorem opBlock32_hc128 (st : Hc128.Rng) (n : Nat) :
+    opBlock32 Hc128.blockCore st .u32 = (.w32 (Hc128.nextU32 st).1, (Hc128.nextU32 st).2)
+    ∧ opBlock32 Hc128.blockCore st .u64 = (.w64 (Hc128.nextU64 st).1, (Hc128.nextU64 st).2)
+    ∧ opBlock32 Hc128.blockCore st (.fill n) = (.bytes (Hc128.fill n st).1, (Hc128.fill n st).2) :=
+  ⟨rfl, rfl, rfl⟩
+
+/-- every state with a 16-word buffer, at every buffer index 0..16 -/
+theorem Hc128_refines (st : Hc128.Rng) (hsz : st.results.size = 16) (hidx : st.index ≤ 16)
+    (ops : List Op) : RefinesBlock32 Hc128.blockCore st ops :=
+  refinesBlock32 Hc128.blockCore hc128_sizeOK (by decide) st hsz hidx ops
+
+/-- every seed -/
+theorem Hc128_fromSeed_refines (seed : List U8) (ops : List Op) :
+    RefinesBlock32 Hc128.blockCore (Hc128.fromSeed seed) ops :=
+  Hc128_refines _ (by simp [Hc128.fromSeed, BlockRng.new, Hc128.blockCore]) (Nat.le_refl _) ops
+
+/-! ### IsaacRng -/
+
+theorem opBlock32_isaac (st : Isaac.Rng32) (n : Nat) :
+    opBlock32 Isaac.blockCore32 st .u32
+        = (.w32 (BlockRng.nextU32 Isaac.blockCore32 st).1, (BlockRng.nextU32 Isaac.blockCore32 st).2)
+    ∧ opBlock32 Isaac.blockCore32 st .u64
+        = (.w64 (BlockRng.nextU64 Isaac.blockCore32 st).1, (BlockRng.nextU64 Isaac.blockCore32 st).2)
+    ∧ opBlock32 Isaac.blockCore32 st (.fill n)
+        = (.bytes (BlockRng.fillBytes Isaac.blockCore32 n st).1,
+           (BlockRng.fillBytes Isaac.blockCore32 n st).2) :=
+  ⟨rfl, rfl, rfl⟩
+
+theorem Isaac_refines (st : Isaac.Rng32) (hsz : st.results.size = 256) (hidx : st.index ≤ 256)
+    (ops : List Op) : RefinesBlock32 Isaac.blockCore32 st ops :=
+  refinesBlock32 Isaac.blockCore32 isaac32_sizeOK (by decide) st hsz hidx ops
+
+/-- every freshly constructed `IsaacRng` (`from_seed`, `seed_from_u64`, `from_rng`: any core) -/
+theorem Isaac_new_refines (core : Isaac.Core 32) (ops : List Op) :
+    RefinesBlock32 Isaac.blockCore32 (BlockRng.new Isaac.blockCore32 core) ops :=
+  Isaac_refines _ (by simp [BlockRng.new, Isaac.blockCore32, Isaac.RAND_SIZE]) (Nat.le_refl _) ops
+
+/-! ### Isaac64Rng -/
+
+theorem opBlock64_isaac64 (st : Isaac.Rng64) (n : Nat) :
+    opBlock64 Isaac.blockCore64 st .u32
+        = (.w32 (BlockRng64.nextU32 Isaac.blockCore64 st).1, (BlockRng64.nextU32 Isaac.blockCore64 st).2)
+    ∧ opBlock64 Isaac.blockCore64 st .u64
+        = (.w64 (BlockRng64.nextU64 Isaac.blockCore64 st).1, (BlockRng64.nextU64 Isaac.blockCore64 st).2)
+    ∧ opBlock64 Isaac.blockCore64 st (.fill n)
+        = (.bytes (BlockRng64.fillBytes Isaac.blockCore64 n st).1,
+           (BlockRng64.fillBytes Isaac.blockCore64 n st).2) :=
+  ⟨rfl, rfl, rfl⟩
+
+theorem Isaac64_refines (st : Isaac.Rng64) (hsz : st.results.size = 256) (hidx : st.index ≤ 256)
+    (hhalf : st.halfUsed = false) (ops : List Op) : RefinesBlock64 Isaac.blockCore64 st ops :=
+  refinesBlock64 Isaac.blockCore64 isaac64_sizeOK (by decide) st hsz hidx hhalf ops
+
+theorem Isaac64_new_refines (core : Isaac.Core 64) (ops : List Op) :
+    RefinesBlock64 Isaac.blockCore64 (BlockRng64.new Isaac.blockCore64 core) ops :=
+  Isaac64_refines _ (by simp [BlockRng64.new, Isaac.blockCore64, Isaac.RAND_SIZE]) (Nat.le_refl _) rfl ops
+
+/-- hypotheses are satisfiable: the states the constructors build -/
+example (seed : List U8) : (Hc128.fromSeed seed).results.size = 16 ∧ (Hc128.fromSeed seed).index ≤ 16 :=
+  ⟨by simp [Hc128.fromSeed, BlockRng.new, Hc128.blockCore], Nat.le_refl _⟩
+example (seed : List U8) :
+    (Isaac.fromSeed64 seed).results.size = 256 ∧ (Isaac.fromSeed64 seed).index ≤ 256
+    ∧ (Isaac.fromSeed64 seed).halfUsed = false :=
+  ⟨by simp [Isaac.fromSeed64, BlockRng64.new, Isaac.blockCore64, Isaac.RAND_SIZE], Nat.le_refl _, rfl⟩
+
+/-! ## C. JitterRng
+
+  The calls live in the timer monad `TM = StateT (List U64) Option` (the list is the script of
+  future timer readings; `none` = script exhausted).  `runJitter j ops` runs a history with
+  `Jitter.nextU32 / nextU64 / fill`.  `natState j rs k` is the (generator, remaining script)
+  pair after `k` native `next_u64` calls and `jitterStream j rs k` the value the `k+1`-st of
+  them returns. -/
+
+theorem opJitter_eq (j : Jitter.Rng) (n : Nat) :
+    opJitter j .u32 = (do let r ← Jitter.nextU32 j; pure (.w32 r.1, r.2))
+    ∧ opJitter j .u64 = (do let r ← Jitter.nextU64 j; pure (.w64 r.1, r.2))
+    ∧ opJitter j (.fill n) = (do let r ← Jitter.fill n j; pure (.bytes r.1, r.2)) :=
+  ⟨rfl, rfl, rfl⟩
+
+/-- Whenever the timer script does not run out (the run returns `some`): the outputs are those
+    of `stepJitter` over the native stream; the final generator and the *remaining script* are
+    exactly those after `pos` native calls — so no timer reading is consumed by a pending
+    high half — and `half_used` is the cursor's `pending`. -/
+theorem Jitter_refines (j : Jitter.Rng) (hj : j.halfUsed = false) (rs : List U64) (ops : List Op)
+    (outs : List Out) (j' : Jitter.Rng) (rs' : List U64)
+    (hr : runJitter j ops rs = some ((outs, j'), rs')) :
+    let spec := run (stepJitter (jitterStream j rs)) ⟨0, false⟩ ops
+    outs = spec.1
+    ∧ ∃ jn, natState j rs spec.2.pos = some (jn, rs') ∧ j' = { jn with halfUsed := spec.2.pending } :=
+  jitter_refines j hj rs ops outs j' rs' hr
+
+/-- the special case spelled out: two consecutive `next_u32` are the low and the high half of
+    one `next_u64` result, and the second consumes no timer reading -/
+theorem Jitter_u32_u32 (j : Jitter.Rng) (hj : j.halfUsed = false) (rs : List U64)
+    (x y : U32) (j' : Jitter.Rng) (rs' : List U64)
+    (hr : runJitter j [.u32, .u32] rs = some (([.w32 x, .w32 y], j'), rs')) :
+    ∃ v jn, Jitter.nextU64 j rs = some ((v, jn), rs') ∧ x = lowHalf v ∧ y = highHalf v
+      ∧ j' = jn := by
+  obtain ⟨h1, jn, h2, h3⟩ := jitter_refines j hj rs _ _ j' rs' hr
+  simp only [run_cons, run_nil, stepJitter, Bool.false_eq_true, if_false, if_true,
+    List.cons.injEq, Out.w32.injEq, and_true, Nat.zero_add] at h1 h2 h3
+  obtain ⟨hx, hy⟩ := h1
+  -- unfold the one native step
+  simp only [natState] at h2
+  cases hn : Jitter.nextU64 j rs with
+  | none => simp [hn] at h2
+  | some p =>
+    obtain ⟨⟨v, jm⟩, rsm⟩ := p
+    simp only [hn, Option.some.injEq, Prod.mk.injEq] at h2
+    obtain ⟨rfl, rfl⟩ := h2
+    have hv : jitterStream j rs 0 = v := by simp [jitterStream, natState, hn]
+    have hpost := nextU64_post j rs _ _ hn
+    refine ⟨v, jm, rfl, by rw [hx, hv], by rw [hy, hv], ?_⟩
+    rw [h3]; exact rng_eta jm hpost.1
+
+/-- the hypothesis is satisfiable: a script long enough for one word (rounds = 1) -/
+example :
+    (runJitter { Jitter.newWithTimer with rounds := 1 } [.u32, .u32] [10, 3, 20, 5, 7, 50, 9]).isSome
+      = true := by decide
 
 end Rngs.C05
